@@ -32,6 +32,20 @@ CHECKS = {
         "C boundary, so their values are concrete distinct ints and only shape, keys and the follow-up mutation are "
         "solver-chosen. Outside: longer containers, deeper nesting.",
    ref='5 (C11)', technique='symbolic execution (symx) of pvl.collections copy paths; bounded shapes, z3 decides every branch'),
+ 'C14': dict(
+   text="Bounded symbolic execution of the real decode_datetime/encode_time code with ALL field values symbolic. "
+        "Decode: every digit assignment of each temporal shape (2 date forms, HH:MM, HH:MM:SS, fractions of 1/3/6 "
+        "(quick) or 1-6 (thorough) digits, T-joined, suffix none/Z/z/+H/-HH/+HHMM/-HH:MM) per dialect, through "
+        "decoder.decode_datetime and through loads('T = <text>') so that the lexer's sign-in-datetime rule is on the "
+        "path; the harness's own calendar in linear integer arithmetic gives validity and the expected type, fields "
+        "and zone (Z -> UTC, ODL offset -> that offset, unmarked -> UTC in PVL/ISIS/PDS3/default and naive in ODL, "
+        "seconds = 60 -> text in PVL/ISIS/default and rejected by ODL/PDS3, PDS3 rejects offsets and sub-millisecond "
+        "fractions). Encode: every valid date / time / datetime (years 1-9999, every microsecond or every "
+        "millisecond, zone naive / UTC / any whole-minute offset within +-14 h) through the real encoder and back "
+        "through the same dialect's decoder: same type, same instant at the same precision, or ValueError. No bound "
+        "on field values; the bound is structural (one temporal value, shapes listed). Quick omits "
+        "every-microsecond x every-offset. Outside: unpadded spellings, dateutil forms (absent), sub-minute offsets.",
+   ref='5 (C14)', technique='symbolic execution (symx) of decoder/encoder time code with all digits/fields symbolic; calendar oracle in LIA; z3'),
  'C15': dict(
    text="Bounded symbolic execution of the real grammar/lexer/exception code. (a) char_allowed of all five grammars "
         "for ONE symbolic code point over the whole range U+0000-10FFFF against the spec sets: exhaustive, every "
